@@ -37,6 +37,8 @@ static size_t g_pl_sz;
 static bool env_overlaps(const void *p, size_t n);
 #ifdef VERIF_REPLAY
 #define ENV_IS_PAYLOAD(p, n) env_overlaps((p), 1)
+#else
+#define ENV_IS_PAYLOAD(p, n) VERIF_SAME_OBJECT((p), g_pl_lo)
 #endif
 #include "C10/rd_env.h"
 #include "lib/sqfs/src/meta_reader.c"
